@@ -47,6 +47,14 @@ theorem first_col_peak_all_blocks (col : List Int) (hb : ∀ v ∈ col, v.natAbs
     ((shapeIdct (.vert col)).getD i 0 - (refIdct (Lemmas.IdctErr.colBlock col)).getD i 0).natAbs ≤ 1 :=
   Lemmas.IdctErr.vert_within_one col hb i hi
 
+/-- **Every block shape the decoder can store** (`Zero` has no residual; `Dc`, first row, first column, full), entries of magnitude
+at most 2048: the residual it adds is within 1 of the reference inverse transform of the 64 levels the shape stands for
+(`expand`, C11 `shapes_lossless`), at every sample.  Error analysis throughout, including the DC shortcut — no `native_decide`. -/
+theorem every_shape_peak_error (b : Rle.Dct) (hb : Lemmas.F32Range.Dct.Bounded b) (res : Nat → Nat → Int) (bad : Bool)
+    (h : blockResidual b = some (res, bad)) (x y : Nat) (hx : x < 8) (hy : y < 8) :
+    (res x y - (refIdct (Lemmas.RlePlacement.expand b).toArray).getD (8 * y + x) 0).natAbs ≤ 1 :=
+  Lemmas.IdctErr.residual_within_one b hb res bad h x y hx hy
+
 /-- non-vacuity and shape of the reference blocks: `rowBlock` puts the list into row 0, `colBlock` into column 0 -/
 example : Lemmas.IdctErr.rowBlock [1, 2, 3, 4, 5, 6, 7, 8] =
     #[1, 2, 3, 4, 5, 6, 7, 8] ++ Array.replicate 56 0 := by decide +kernel
